@@ -716,6 +716,22 @@ func (e *Env) call(x *ECall) (Val, types.Type) {
 			ty = bt
 		}
 		return Val{T: fmt.Sprintf("(%s %s %s)", op, e.coerce(a, at, ty), e.coerce(b, bt, ty))}, ty
+	case "implements":
+		// implements(x, "pkg.Iface"): the dynamic type of interface value x is non-nil and implements Iface
+		// (the predicate an interface-to-interface type assertion x.(Iface) needs)
+		s, ok := x.Args[1].(*EStr)
+		if !ok {
+			return e.fail("implements needs a string literal naming the interface type")
+		}
+		ity := t.eng.resolveType(s.Val, e.pkg)
+		if ity == nil {
+			return e.fail("implements: unknown type %s", s.Val)
+		}
+		if _, isI := ity.Underlying().(*types.Interface); !isI {
+			return e.fail("implements: %s is not an interface type", s.Val)
+		}
+		v, _ := arg(0)
+		return Val{T: fmt.Sprintf("(and (not (= (ityp %s) 0)) %s)", v.T, t.implPred(ity, fmt.Sprintf("(ityp %s)", v.T)))}, tBool
 	case "dyntype":
 		v, _ := arg(0)
 		return Val{T: fmt.Sprintf("(ityp %s)", v.T)}, tInt
